@@ -226,6 +226,8 @@ def run_algebra_case(case):
         other = bv.clone()
     elif kind == "matrix":
         other = bv.clone().repeat(2, 1)          # shape (2, 2): the weighted vector (and its weights) is broadcast along the rows
+    elif kind == "wt_none_matrix":
+        other = WeightedTensor(bv.clone().repeat(2, 1))
     elif kind == "wt_same":
         other = WeightedTensor(bv.clone(), wt.clone())
     elif kind == "wt_none":
@@ -243,7 +245,7 @@ def run_algebra_case(case):
     if not isinstance(r, WeightedTensor) or r.weight is None:
         rec["outcome"] = "weights_lost"
         return rec
-    if kind == "matrix":
+    if kind in ("matrix", "wt_none_matrix"):
         # every row of the result is the vector case: same weights, same values
         if tuple(r.value.shape) != (2, 2) or tuple(r.weight.shape) != (2, 2) or not bool(torch.equal(r.weight[0], r.weight[1])):
             rec["outcome"] = f"broadcast_shapes value {tuple(r.value.shape)} weight {tuple(r.weight.shape)}"
@@ -263,7 +265,7 @@ def run_algebra_case(case):
     s, n = r.wsum()
     rec["wcount"] = int(n)
     # the aggregate of the result sees its observed entries only (whatever the arithmetic made of them)
-    own = sum(float(val[i]) for i in range(2) if w[i]) * (2 if kind == "matrix" else 1)
+    own = sum(float(val[i]) for i in range(2) if w[i]) * (2 if kind in ("matrix", "wt_none_matrix") else 1)
     rec["wsum_own_ok"] = bool(abs(float(s) - own) <= 1e-5 * max(1.0, abs(own)))
     den = 1
     for i in range(2):
@@ -273,5 +275,5 @@ def run_algebra_case(case):
     same = lambda p, q: bool(torch.equal(torch.nan_to_num(p, nan=-7.0, posinf=-8.0), torch.nan_to_num(q, nan=-7.0, posinf=-8.0)))  # noqa: E731
     rec["operands_untouched"] = same(x.value, av) and bool(torch.equal(x.weight, wt)) and (
         not isinstance(other, (torch.Tensor, WeightedTensor)) or same(other.value if isinstance(other, WeightedTensor) else other,
-                                                                      bv if kind != "matrix" else bv.repeat(2, 1)))
+                                                                      bv if kind not in ("matrix", "wt_none_matrix") else bv.repeat(2, 1)))
     return rec
